@@ -76,6 +76,19 @@ def run(ctx: Ctx) -> None:
         tags = {t for t, _ in orig}
         ok = tags == {'fresh'}
         why = None
+        if not ok and _is_new(f):
+            # a function that the reference tree does not have (a helper taken out of a writer: a method of a new base class, a local
+            # closure, ...) is read through its callers: the name it opens is the name each of them holds when it calls; judged on its own
+            # it contradicts nothing
+            via = _origins_through_callers(prog, f, namee) if 'remembered' in tags and tags <= {'remembered', 'fresh'} else None
+            if via is not None and via == {'fresh'}:
+                ctx.add('C14.R1', f'{owner}:write({target[:40]})', True, (f.file, c.lineno),
+                        f'{unparse(c.func)}({target}) with {target} freshly obtained from get_new_file_name by every caller of {f.name}', target)
+                continue
+            if 'remembered' in tags:
+                ctx.add('C14.R1', f'{owner}:write({target[:40]})', None, (f.file, c.lineno),
+                        f'{unparse(c.func)}({target}): {f.name} is a new function; where its callers take {target} from is not in a form the rule understands', target)
+                continue
         if not ok:
             rem = [e for t, e in orig if t == 'remembered']
             fixed = [e for t, e in orig if t == 'fixed']
@@ -180,7 +193,27 @@ for _N in _NAMES:
         names = '/'.join(sorted({x.func.attr for x in calls}))
         # what self.data holds at a normal exit that is reached without the call: an object without results has no statistics to recompute
         # (the statistics method returns at once when self.data is None), so only an exit on which self.data holds results contradicts the property
-        skipped, precise = (set(), True) if ok else _exit_states_without(cfg, {cfg.node_of(x) for x in calls}, 'self.data')
+        # tests on parameters that the constructor never assigns are correlated from one `if` to the next: the paths are followed once per
+        # case (each such parameter None / not None) with the branches that the case decides cut; a guard of the call that reads such a
+        # parameter in a way the cases do not decide leaves the verdict open
+        fixed_params = _unassigned_params(rinit, cfg)
+        for x in calls:
+            st_ = cfg.stmt[cfg.node_of(x)]
+            ch = _guards(rinit, st_) if isinstance(st_, ast.stmt) else 'other'
+            for t, _pol in (ch if isinstance(ch, list) else []):
+                flags |= {y.id for y in ast.walk(t) if isinstance(y, ast.Name)} & _undecided_names(t, fixed_params)
+        if ok:
+            skipped, precise = set(), True
+        else:
+            tested = sorted({y.id for n_ in cfg.nodes() if cfg._kind.get(n_) == 'if' for y in ast.walk(cfg.stmt[n_].test) if isinstance(y, ast.Name)} & fixed_params)
+            skipped, precise = set(), True
+            if len(tested) > 5:
+                tested = []
+            for k in range(2 ** len(tested)):
+                case = {p_: bool(k >> i & 1) for i, p_ in enumerate(tested)}
+                sk, pr = _exit_states_without(cfg, {cfg.node_of(x) for x in calls}, 'self.data', _cut_edges(cfg, case))
+                skipped |= sk
+                precise = precise and pr
         noop = all(_returns_at_once_when_none(raw[x.func.attr], 'self.data') for x in calls)
         if ok:
             verdict, pos = True, False
@@ -463,7 +496,74 @@ def _returns_at_once_when_none(method: ast.FunctionDef, attr: str) -> bool:
     return False
 
 
-def _exit_states_without(cfg, avoid: set, attr: str) -> tuple[set, bool]:
+def _unassigned_params(func_node, cfg) -> set[str]:
+    """parameters of the function that nothing in it assigns (nested functions included): what a test says of them holds to the end"""
+    a = func_node.args
+    params = {x.arg for x in a.posonlyargs + a.args + a.kwonlyargs} - {'self', 'cls'}
+    stored = {n.id for n in ast.walk(func_node) if isinstance(n, ast.Name) and isinstance(n.ctx, (ast.Store, ast.Del))}
+    stored |= {d.name for n_ in cfg.nodes() for d in cfg.defs()[n_] if d.kind != 'param'}
+    stored |= {x for n in ast.walk(func_node) if isinstance(n, (ast.Global, ast.Nonlocal)) for x in n.names}
+    return params - stored
+
+
+def _decide(test: ast.expr, case: dict):
+    """truth value of a test in the case ``case`` (name -> it is None): True / False, None when the case does not decide it"""
+    from .c13 import _none_test
+
+    if isinstance(test, ast.UnaryOp) and isinstance(test.op, ast.Not):
+        r = _decide(test.operand, case)
+        return None if r is None else not r
+    if isinstance(test, ast.BoolOp):
+        vals = [_decide(v, case) for v in test.values]
+        absorbing = isinstance(test.op, ast.Or)
+        if any(v is absorbing for v in vals):
+            return absorbing
+        return None if any(v is None for v in vals) else (not absorbing)
+    if isinstance(test, ast.Name):
+        return False if case.get(test.id) is True else None
+    for p_, is_none in case.items():
+        nt = _none_test(test, p_)
+        if nt is not None:
+            return nt == is_none
+    return None
+
+
+def _undecided_names(test: ast.expr, names: set) -> set[str]:
+    """the names of ``names`` that the test reads otherwise than through `name is None` / `name is not None` combined with and / or / not"""
+    from .c13 import _none_test
+
+    if isinstance(test, ast.UnaryOp) and isinstance(test.op, ast.Not):
+        return _undecided_names(test.operand, names)
+    if isinstance(test, ast.BoolOp):
+        return {x for v in test.values for x in _undecided_names(v, names)}
+    if any(_none_test(test, p_) is not None for p_ in names):
+        return set()
+    return {y.id for y in ast.walk(test) if isinstance(y, ast.Name)} & names
+
+
+def _cut_edges(cfg, case: dict) -> set:
+    """edges (if node, successor) that are not taken in the case ``case``"""
+    cut = set()
+    if not case:
+        return cut
+    for n in cfg.nodes():
+        if cfg._kind.get(n) != 'if':
+            continue
+        st = cfg.stmt[n]
+        v = _decide(st.test, case)
+        if v is None:
+            continue
+        inside = {cfg.node_of(x) for b in st.body for x in ast.walk(b) if isinstance(x, (ast.stmt, ast.ExceptHandler))} - {None, n}
+        succ = list(cfg.g.successors(n))
+        if not inside or not any(s in inside for s in succ) or all(s in inside for s in succ):
+            continue
+        for s in succ:
+            if (s in inside) != v:
+                cut.add((n, s))
+    return cut
+
+
+def _exit_states_without(cfg, avoid: set, attr: str, cut: set = frozenset()) -> tuple[set, bool]:
     """What ``attr`` may hold at the normal exit along the paths that pass none of the nodes ``avoid``:
     'unset' never assigned, 'none' the constant None, 'val' anything else that was assigned, 'any' unknown (a call that may assign it).
     Tests `attr is None` / `attr is not None` cut the paths on which they cannot hold.  The second result is False when a test that reads
@@ -513,6 +613,8 @@ def _exit_states_without(cfg, avoid: set, attr: str) -> tuple[set, bool]:
             continue
         out = transfer(n, IN[n])
         for s in g.successors(n):
+            if (n, s) in cut:
+                continue
             flow = out
             if cfg._kind.get(s) == 'except':
                 flow = out | IN[n]  # the statement may raise before it stores
@@ -626,6 +728,76 @@ def _origins(cfg, expr: ast.expr, at: int, depth: int = 6) -> list[tuple[str, st
             return [('unknown', unparse(expr))]
         return [('fixed', unparse(expr))]
     return [('unknown', unparse(expr))]
+
+
+def _is_new(f: FuncInfo) -> bool:
+    """the function (or a function that encloses it) is not in the inventory of the reference tree"""
+    from ..normal import inventory
+
+    inv = inventory()
+    if inv is None:
+        return False
+    return f'{f.file}::{f.qualname}'.replace('.<locals>', '') not in inv and f'{f.file}::{f.qualname}' not in inv
+
+
+def _origins_through_callers(prog, f: FuncInfo, namee: ast.expr, depth: int = 3) -> set[str] | None:
+    """tags (see _origins) of the attribute of self ``namee`` at every call of the new function ``f`` on the same object: a local closure is
+    called by its name in the enclosing function, a method as self.f(...) by the methods of the classes that resolve the name to it.
+    None: no caller, or some use of ``f`` that is not such a call."""
+    sites: list[tuple[FuncInfo, ast.Call]] = []
+    if f.parent is not None:
+        if 'self' in f.params():
+            return None
+        for n in walk_no_nested(f.parent.node):
+            if isinstance(n, ast.Call) and isinstance(n.func, ast.Name) and n.func.id == f.name:
+                sites.append((f.parent, n))
+        used = [n for n in ast.walk(f.parent.node) if isinstance(n, ast.Name) and n.id == f.name and isinstance(n.ctx, ast.Load)]
+        if len(used) != len(sites) or sum(1 for n in ast.walk(f.parent.node) if isinstance(n, (ast.FunctionDef, ast.AsyncFunctionDef)) and n.name == f.name) != 1:
+            return None
+    elif f.cls is not None:
+        if f.node.decorator_list:
+            return None
+        for g in prog.all_functions(with_transparent=True):
+            owner = g
+            while owner.cls is None and owner.parent is not None:
+                owner = owner.parent
+            if owner.cls is None:
+                if any(isinstance(n, ast.Attribute) and n.attr == f.name for n in ast.walk(g.node)):
+                    return None
+                continue
+            for n in walk_no_nested(g.node):
+                if isinstance(n, ast.Attribute) and n.attr == f.name:
+                    if not (isinstance(n.value, ast.Name) and n.value.id == 'self' and g is owner):
+                        return None  # called on another object, through super(), from a closure, or handed on uncalled
+                    if f.cls in owner.cls.mro() or owner.cls in f.cls.mro():
+                        if owner.cls.resolve(f.name) is not f and f.cls not in owner.cls.mro():
+                            continue
+                        sites.append((g, n))
+        calls = {id(c.func): c for g, _ in sites for c in walk_no_nested(g.node) if isinstance(c, ast.Call)}
+        if any(id(a) not in calls for _, a in sites):
+            return None
+        sites = [(g, calls[id(a)]) for g, a in sites]
+    else:
+        return None
+    if not sites:
+        return None
+    tags: set[str] = set()
+    for g, c in sites:
+        cfg = cfg_of(g.node)
+        at = cfg.node_of(c)
+        if at is None:
+            return None
+        for t, e in _origins(cfg, namee, at):
+            if t == 'remembered' and _may_be_set_by_callee(g, cfg, e, at):
+                t = 'unknown'
+            if t == 'remembered' and _is_new(g) and depth > 0 and g is not f:
+                sub = _origins_through_callers(prog, g, namee, depth - 1)
+                if sub is None:
+                    return None
+                tags |= sub
+                continue
+            tags.add(t)
+    return tags
 
 
 def _may_be_set_by_callee(f: FuncInfo, cfg, attr: str, at: int, depth: int = 3) -> bool:
